@@ -90,10 +90,22 @@ func runC11(c *Ctx) {
 	r.Rule("P4", "constant / len-k index and slice bounds are proven or tabled with an invariant", 90)
 	r.Rule("P5", "division, Repeat and make arguments are guarded", 3)
 	c.P.buildSSA()
-	funcs := c.moduleFuncs()
+	ruleP1(c)
+	ruleP2c11(c)
+	ruleP3c11(c)
+	ruleP4(c)
+	ruleP5(c)
+	// ---- P6 ---------------------------------------------------------------------
+	for _, fn := range c.moduleFuncs() {
+		for _, s := range recoverLostSites(c, fn) {
+			r.Note("P6 (not armed, no input reaching this recover could be exhibited): %s at %s: %s", s.Key, c.P.pos(s.Instr.Pos()), s.Desc)
+		}
+	}
+}
 
-	// ---- P1 ---------------------------------------------------------------------
-	for _, fn := range funcs {
+func ruleP1(c *Ctx) {
+	r := c.R
+	for _, fn := range c.moduleFuncs() {
 		eachInstr(fn, func(ins ssa.Instruction) {
 			if pn, ok := ins.(*ssa.Panic); ok {
 				key := funcKey(fn) + "/panic"
@@ -133,12 +145,12 @@ func runC11(c *Ctx) {
 		})
 	}
 
-	ruleP2c11(c)
-	ruleP3c11(c)
+}
 
-	// ---- P4 ---------------------------------------------------------------------
+func ruleP4(c *Ctx) {
+	r := c.R
 	np, nv, nvp := 0, 0, 0
-	for _, fn := range funcs {
+	for _, fn := range c.moduleFuncs() {
 		for _, s := range indexSites(fn) {
 			key := fmt.Sprintf("%s/%s:%s", funcKey(fn), exprOfValue(s.Base), s.Desc)
 			if s.Proven {
@@ -162,8 +174,11 @@ func runC11(c *Ctx) {
 	r.Analysed["variable_index_sites_proven_in_range"] = nvp
 	r.Note("P4: %d variable-index expressions counted, %d of them proved in range by dominating comparisons; the rest are not armed (loop/parity invariants such as 'a map's Content has even length')", nv, nvp)
 
-	// ---- P5 ---------------------------------------------------------------------
-	for _, fn := range funcs {
+}
+
+func ruleP5(c *Ctx) {
+	r := c.R
+	for _, fn := range c.moduleFuncs() {
 		eachInstr(fn, func(ins ssa.Instruction) {
 			switch x := ins.(type) {
 			case *ssa.BinOp:
@@ -205,12 +220,6 @@ func runC11(c *Ctx) {
 				}
 			}
 		})
-	}
-	// ---- P6 ---------------------------------------------------------------------
-	for _, fn := range funcs {
-		for _, s := range recoverLostSites(c, fn) {
-			r.Note("P6 (not armed, no input reaching this recover could be exhibited): %s at %s: %s", s.Key, c.P.pos(s.Instr.Pos()), s.Desc)
-		}
 	}
 }
 
